@@ -128,6 +128,24 @@ def run_trace(rng, spec, nops, kinds=None, oracles=("xref", "sync", "ctx"), extr
             # calls that only look at the model: Core.observe (nothing changes, nothing is recorded)
             modelled = True
             line_op = {"op": "observe"}
+        if op["op"] in ("copy", "deepcopy", "pickle", "switch_solver") and ex.depth == 0:
+            # Model.copy / deepcopy / pickle round trip / model.solver = interface, outside a context: on the value state nothing changes
+            # (Core.observe) — content, cross-references and the raw solver problem of the new object must equal those of the old one
+            modelled = True
+            line_op = {"op": "observe"}
+        if op["op"] == "add_boundary" and op["m"] in ex.model.metabolites and op["type"] in ("exchange", "demand", "sink") and in_universe(ex.model):
+            # Model.add_boundary(metabolite, type): Core.addBoundary (type table, identifier, refusals, then add_reactions of the new reaction)
+            bid = {"exchange": "EX_", "demand": "DM_", "sink": "SK_"}[op["type"]] + op["m"]
+            try:
+                from cobra.medium import find_external_compartment
+                ext = ex.model.metabolites.get_by_id(op["m"]).compartment == find_external_compartment(ex.model)
+            except Exception:
+                ext = None
+            if bid in UNIV_R and (ext is not None or op["type"] != "exchange"):
+                from cobra import Configuration
+                modelled = True
+                line_op = {"op": "add_boundary", "m": op["m"], "type": op["type"], "external": bool(ext),
+                           "dlb": canon.num(Configuration().lower_bound), "dub": canon.num(Configuration().upper_bound)}
         depth_before = ex.depth
         err = ex.apply(op)
         probs = []
